@@ -41,6 +41,11 @@ def scratch_build(native=True, keep=False):
              "--exclude", "__pycache__", "--exclude", "*.egg-info", "--exclude", ".pytest_cache",
              REPO + "/", dst + "/"],
             check=True)
+        # the .pyx files are the source: never let a stale generated .c stand in for them
+        cy = os.path.join(dst, "scriptplan", "_cython")
+        for f in os.listdir(cy):
+            if f.endswith(".c"):
+                os.unlink(os.path.join(cy, f))
         if native:
             r = subprocess.run([PY, "setup.py", "build_ext", "--inplace", "-j", "3"], cwd=dst,
                                stdout=subprocess.PIPE, stderr=subprocess.STDOUT, text=True)
